@@ -41,13 +41,32 @@ type PBFFilesOSMSource struct {
 }
 
 func (s *PBFFilesOSMSource) Read(options osm.ReadOptions, emit osm.EmitWithGoroutine, ctx context.Context) error {
+	// Once emit fails for an element of one file, stop emitting the
+	// elements of the others too
+	var cause error
+	var lock sync.RWMutex
+	emitUntilFailure := func(e osm.Element, goroutine int) error {
+		lock.RLock()
+		err := cause
+		lock.RUnlock()
+		if err == nil {
+			if err = emit(e, goroutine); err != nil {
+				lock.Lock()
+				if cause == nil {
+					cause = err
+				}
+				lock.Unlock()
+			}
+		}
+		return err
+	}
 	read := func(ctx context.Context, filename string, fs filesystem.Interface) error {
 		f, err := fs.OpenRead(ctx, filename)
 		if err != nil {
 			return err
 		}
 		defer f.Close()
-		return osm.ReadPBFWithOptions(f, emit, options)
+		return osm.ReadPBFWithOptions(f, emitUntilFailure, options)
 	}
 	return mapFilenames(ctx, read, s.Glob, s.FailWhenNoFiles, options.Cores)
 }
